@@ -256,7 +256,7 @@ func runCells(bin string, cells []g2Cell) *g2Result {
 			// G2h cell: outcomes are aggregated over endings / extensions; keys are derived in reportHandlers
 			ops := strings.Split(c.Hist, ";")
 			res.Outcomes[fmt.Sprintf("g2h:last=%s site=%s eff=%s prior=%s handler-ran=%v status=%d stderr=%v", ops[len(ops)-1], c.Site, c.Eff, c.Prior, strings.Contains(o.Stdout, hMarker), o.Status, strings.TrimSpace(o.Stderr) != "")] = true
-			res.HSeen = append(res.HSeen, hSeen{Cell: c, Obs: o, Clauses: judgeCell(e, c, o)})
+			res.HSeen = append(res.HSeen, hSeen{Cell: c, Obs: o, Clauses: judgeCell(e, c, o), Ran: strings.Contains(o.Stdout, hMarker)})
 			continue
 		}
 		res.Outcomes[fmt.Sprintf("g2:%s/%s status=%d stderr=%v prior-on-stdout=%s", c.Ending, c.Prior, o.Status, strings.TrimSpace(o.Stderr) != "", flushed)] = true
@@ -309,20 +309,38 @@ func runG2x(seed int64, quick bool) *g2Result {
 	sort.Strings(res.HExcluded)
 	res.HSeen = nil
 	res.HBounds = hTierBounds(quick)
-	hc, nh := hCells(res.HBounds, excluded)
-	res.HHists = nh
-	r2 := runCells(bin, hc)
-	res.Cells += r2.Cells
-	res.HSeen = r2.HSeen
 	res.HTable = map[string]int{}
-	for _, s := range r2.HSeen {
-		ops := strings.Split(s.Cell.Hist, ";")
-		res.HTable[fmt.Sprintf("last=%s eff=%s expect=%s handler-ran=%v status=%d stderr=%v", ops[len(ops)-1], s.Cell.Eff, s.Cell.Expect, strings.Contains(s.Obs.Stdout, hMarker), s.Obs.Status, strings.TrimSpace(s.Obs.Stderr) != "")]++
+	// the family streams through in chunks; only verdicts, truncated outputs and (for failing cells)
+	// the files are kept
+	var chunk []g2Cell
+	flush := func() {
+		if len(chunk) == 0 {
+			return
+		}
+		r2 := runCells(bin, chunk)
+		chunk = chunk[:0]
+		res.Cells += r2.Cells
+		for _, s := range r2.HSeen {
+			ops := strings.Split(s.Cell.Hist, ";")
+			res.HTable[fmt.Sprintf("last=%s eff=%s expect=%s handler-ran=%v status=%d stderr=%v", ops[len(ops)-1], s.Cell.Eff, s.Cell.Expect, s.Ran, s.Obs.Status, strings.TrimSpace(s.Obs.Stderr) != "")]++
+			s.Obs.Stdout, s.Obs.Stderr = trunc(s.Obs.Stdout, 400), trunc(s.Obs.Stderr, 400)
+			if len(s.Clauses) == 0 {
+				s.Cell.Files = nil
+			}
+			res.HSeen = append(res.HSeen, s)
+		}
+		res.Harness = append(res.Harness, r2.Harness...)
+		for o := range r2.Outcomes {
+			res.Outcomes[o] = true
+		}
 	}
-	res.Harness = append(res.Harness, r2.Harness...)
-	for o := range r2.Outcomes {
-		res.Outcomes[o] = true
-	}
+	res.HHists = hCells(res.HBounds, excluded, func(c g2Cell) {
+		chunk = append(chunk, c)
+		if len(chunk) >= 4096 {
+			flush()
+		}
+	})
+	flush()
 	return res
 }
 
